@@ -2,10 +2,16 @@
 package p06
 
 import (
+	"bytes"
+	"context"
 	"fmt"
+	"os"
+	"os/exec"
+	"path/filepath"
 	"regexp"
 	"strings"
 	"testing"
+	"time"
 
 	"pgregory.net/rapid"
 	"verif/harness/corpus"
@@ -24,6 +30,7 @@ type Case struct {
 	Inputs   []string `json:"inputs,omitempty"`
 	Origin   string   `json:"origin"`
 	MustPars bool     `json:"must_parse,omitempty"` // well-typed by construction
+	CLI      bool     `json:"cli,omitempty"`        // also through the evy binary
 }
 
 func checkCase(c Case) (*h.Failure, string) {
@@ -72,7 +79,52 @@ func checkCase(c Case) (*h.Failure, string) {
 			}
 		}
 	}
+	if c.CLI {
+		if fl := cliFormat(c, out); fl != nil {
+			return fl, out
+		}
+	}
 	return nil, out
+}
+
+// cliFormat: the command line prints / writes exactly the formatter's text: `evy fmt` from
+// standard input to standard output, and `evy fmt -w` into the file.
+func cliFormat(c Case, formatted string) *h.Failure {
+	bin := filepath.Join(os.Getenv("VERIF_BUILD"), "evy")
+	if _, err := os.Stat(bin); err != nil {
+		return nil
+	}
+	dir, _ := os.MkdirTemp("", "verif-c06-")
+	defer os.RemoveAll(dir)
+	ctx, cancel := context.WithTimeout(context.Background(), 60*time.Second)
+	defer cancel()
+	cmd := exec.CommandContext(ctx, bin, "fmt")
+	cmd.Stdin = strings.NewReader(c.Src)
+	var so, se bytes.Buffer
+	cmd.Stdout, cmd.Stderr = &so, &se
+	if err := cmd.Run(); err != nil {
+		if ctx.Err() != nil {
+			return nil
+		}
+		return &h.Failure{Kind: "cli-format-failed", Detail: "evy fmt (stdin) fails on an accepted program: " + se.String(), Src: c.Src, Case: c}
+	}
+	if so.String() != formatted {
+		return &h.Failure{Kind: "cli-stdout-differs", Detail: fmt.Sprintf("evy fmt (stdin to stdout) prints text that differs from the formatter's output\nprinted:\n%s\nformatter:\n%s", so.String(), formatted), Src: c.Src, Case: c}
+	}
+	f := filepath.Join(dir, "p.evy")
+	os.WriteFile(f, []byte(c.Src), 0o644) //nolint:errcheck
+	cmd2 := exec.CommandContext(ctx, bin, "fmt", "-w", f)
+	if outb, err := cmd2.CombinedOutput(); err != nil {
+		if ctx.Err() != nil {
+			return nil
+		}
+		return &h.Failure{Kind: "cli-format-failed", Detail: "evy fmt -w fails on an accepted program: " + string(outb), Src: c.Src, Case: c}
+	}
+	b, _ := os.ReadFile(f)
+	if string(b) != formatted {
+		return &h.Failure{Kind: "cli-file-differs", Detail: fmt.Sprintf("evy fmt -w writes text that differs from the formatter's output\nwritten:\n%s\nformatter:\n%s", b, formatted), Src: c.Src, Case: c}
+	}
+	return nil
 }
 
 func dropBlank(s string) string {
@@ -93,6 +145,10 @@ func TestProp(t *testing.T) {
 	}
 	ctx := h.Setup(t, "C06")
 	all := corpus.All()
+	cliBudget, ncli := 40, 0
+	if ctx.Thorough() {
+		cliBudget = 400
+	}
 	rapid.Check(t, func(t *rapid.T) {
 		mode := rapid.SampledFrom([]string{"model", "model", "model", "corpus", "relayout", "relayout", "model-relayout", "mutant", "mutant", "mutant"}).Draw(t, "mode")
 		c := Case{Origin: mode}
@@ -137,7 +193,14 @@ func TestProp(t *testing.T) {
 			}
 		}
 		c.Inputs = []string{"abc", "1"}
+		if ncli < cliBudget && rapid.IntRange(0, 30).Draw(t, "cli") == 0 {
+			c.CLI = true
+		}
 		fl, out := checkCase(c)
+		if c.CLI && out != "" {
+			ncli++
+			ctx.Rec.Add("evy_fmt_process_cases", 1)
+		}
 		comment := strings.Contains(c.Src, "//")
 		multi := multilineLit.MatchString(c.Src)
 		nontrivial := out != "" && out != c.Src && (comment || multi)
